@@ -1653,6 +1653,8 @@ def run(ctx):
     else:
         n = ctx.n(150, 1200)
         cases = {k: gen_case(ctx.rng, k) for k in range(n)}
+        for k in range(ctx.n(50, 400)):
+            cases[50000 + k] = gen_redox_case(ctx.rng, k)
         for i, (name, c) in enumerate(sorted(corpus_cases().items())):
             cases[100000 + i] = c
     jobs = [dict({"id": k, "text": c["text"], "oracle": True}, **({"db": c["db"]} if c.get("db") else {})) for k, c in cases.items()]
@@ -1672,7 +1674,8 @@ def run(ctx):
     judge_replays(ctx, replays, coq, stats)
     ctx.rule = ("forward-simulated evolutions (1..3 initial waters mixed, stoichiometric REACTION with 1..5 phases, optional unmodelled salt as "
                 "perturbation inside/outside the uncertainty) followed by INVERSE_MODELING with 2..9 candidate phases, constraints, force, "
-                "-range, -minimal, -tolerance, -mineral_water, -multiple_precision, per-element/absolute uncertainties; a case is non-trivial "
+                "-range, -minimal, -tolerance, -mineral_water, -multiple_precision, per-element/absolute uncertainties (tight limits by element name on redox elements); "
+                "plus redox evolutions (denitrification with N2 loss, respiration with O2(g), sulfate reduction, H2/CH4/NH3 uptake; phreeqc.dat and llnl.dat); a case is non-trivial "
                 "when at least one model is reported; each reported model is one evaluation of the Coq checker")
     ctx.extra["statistics"] = dict(stats)
     ctx.notes += ["mole-balance residuals are evaluated exactly (Q) on the solver's own vector (hex doubles); tolerance = cl1's own acceptance threshold 10*toler per row (toler = the run's -tolerance)",
